@@ -8,8 +8,8 @@ TRUST = ("Trusted: go/types+go/ssa (x/tools v0.29.0) and ruxvc's SSA semantics; 
 
 CLAIMS = {
  "C01": dict(
-   text="Contract proof of the index and lookup logic, unbounded in tables and paths: match is proved (two loop invariants, existential first-match clauses) to return the static entry when one exists, else the FIRST route of the regular list for METHOD+first-segment that passes the prefix filter and whose regexp accepts, else the first accepting route of the irregular list, and nil only if none qualifies; appendRoute is proved to file a route in exactly its tier, at the end of its list, keeping every earlier route in place (so list order is registration order), with the static table keyed by METHOD+path. The inverted-test defect that dropped earlier irregular routes is fixed (canary).",
-   note=TRUST + "regexp is an uninterpreted model (reAcc/reSub/nsub): the translation pattern -> regexp in parseParamRoute/quotePointChar/checkAndParseOptional is string assembly handed to regexp.MustCompile and is NOT covered deductively (bounded stand-in bounded/patsem, labelled bounded); which tier a pattern is filed in (the literal-first-segment rule computed in parseParamRoute) and the selection among several qualifying routes end to end are run by the bounded stand-in bounded/patprio (labelled bounded). R-reg: tables are frozen before the first request.",
+   text="Contract proof of the index and lookup logic, unbounded in tables and paths: match is proved (two loop invariants, existential first-match clauses) to return the static entry when one exists, else the FIRST route of the regular list for METHOD+first-segment that passes the prefix filter and whose regexp accepts, else the first accepting route of the irregular list, and nil only if none qualifies; appendRoute is proved to file a route in exactly its tier, at the end of its list, keeping every earlier route in place (so list order is registration order), with the static table keyed by METHOD+path; parseParamRoute is proved to return, as the key of the preferred tier, exactly the complete literal first segment of the pattern (after {name:regex} has been reduced to {name}): non-empty result <=> the pattern starts with /segment/ where the segment has no slash and ends before the first { and [, and every such segment equals the result (quantified over all strings). The inverted-test defect that dropped earlier irregular routes is fixed (canary).",
+   note=TRUST + "regexp is an uninterpreted model (reAcc/reSub/nsub): the translation pattern -> regexp in parseParamRoute/quotePointChar/checkAndParseOptional is string assembly handed to regexp.MustCompile and is NOT covered deductively (bounded stand-in bounded/patsem, labelled bounded); the first-segment rule is proved relative to the variable-stripped pattern, which strings.Replacer produces (uninterpreted), and for patterns without variables only in the forward direction; the selection among several qualifying routes end to end is run by the bounded stand-in bounded/patprio (labelled bounded). R-reg: tables are frozen before the first request.",
    design="6/C01"),
  "C02": dict(
    text="Contract proof: matchRegex is proved (loop invariant, exact handling of repeated names: last occurrence wins) to return parameters that are positionally the submatches of the route's regexp - name i <-> group i+1 - for exactly the route's variable names, given the group-count invariant routeWF that parseParamRoute establishes by a registration-time check (fix for the capturing-group defect); static hits carry no parameters; a cache hit returns the parameter map stored with the entry, which cacheDynamicRoute proves to be the map of the original match.",
@@ -20,7 +20,7 @@ CLAIMS = {
    note=TRUST + "internal405Handler/internal404Handler bodies (Allow header sorting, status) are not under contract: bounded stand-in bounded/fallback (labelled bounded) runs the whole decision list through ServeHTTP.",
    design="6/C06"),
  "C07": dict(
-   text="Contract proof of the cache discipline: a cache hit returns exactly the stored view; a dynamic match stores, under the key METHOD+path it is looked up with, a copy of the matched route with the parameters of that match (cacheDynamicRoute, copyWithParams); the invariant cacheNN (every entry belongs to a (method,path) the dynamic tables match; key decomposition proved unique by a string lemma) makes 'a route is found' independent of the cache content, for any capacity; the container keeps all other entries' values (C14).",
+   text="Contract proof of the cache discipline: a cache hit returns exactly the stored view; a dynamic match stores, under the key METHOD+path it is looked up with, a copy of the matched route with the parameters of that match (cacheDynamicRoute, copyWithParams); the invariant cacheNN (every entry belongs to a (method,path) the dynamic tables match; key decomposition proved unique by a string lemma) makes 'a route is found' independent of the cache content, for any capacity; the container keeps all other entries' values (C14); the dispatcher (handleHTTPRequest) is proved not to write any parameter map that existed when the request arrived, so cached parameters are not changed by serving them.",
    note=TRUST + "The full equality 'cached result == uncached result for every history' composes these clauses with R-reg (frozen tables) by a meta-argument; route identity differs (the cache holds copies), as documented.",
    design="6/C07"),
  "C15": dict(
